@@ -726,9 +726,6 @@ pub fn run(ctx: &Ctx) -> Report {
     }
     rep.extra("levels", json!(levels));
     rep.extra("depth_completed", json!(if ctx.thorough { "all trees of depth<=1 (23 leaves); all depth-2 trees with one non-leaf child (7 leaves) and binary depth-2 trees with two non-leaf children (7 x 3 leaves); depth-3 trees with a single depth-2 spine (3 leaves); chains to depth 6. The quantifier's depth 6 over everything is not reachable." } else { "all trees of depth<=1 (23 leaves); all depth-2 trees with one non-leaf child (7 leaves), which contains every ordered operator pair; chains to depth 6" }));
-    rep.local.states.insert(0);
-    rep.local.states.extend(rep.local.nontrivial.iter().copied());
-    rep.local.transitions = rep.local.evaluations;
     rep.assumptions = vec!["num-bigint is shared by subject and reference (bit operations and division are re-derived by hand in the reference)".into(), "no symbols are available in direct evaluation; symbol lookup belongs to C15".into()];
     rep.require_class("defined-value");
     rep.require_class("defined-error");
